@@ -174,7 +174,7 @@ def check_model_against_spec(c, model, case):
     logst = model.get_log_status()
     for kind in ("tvars", "mvars", "exog"):
         for q in spec[kind]:
-            if bool(logst.get(q["name"])) != bool(q.get("log")):
+            if logst.get(q["name"]) is not bool(q.get("log")):   # exactly True / False for every loggable variable, never None
                 vio("log-status:differs", f"{q['name']}: declared log={q.get('log')} exposed {logst.get(q['name'])}")
     # ---- equations: counts
     n_t = len(model.get_dynamic_equations(kind=ir.TRANSITION_EQUATION))
